@@ -116,8 +116,8 @@ def _case_1d(case, spl):
     cls, ev, neval = set(), {"values_compared": 0, "derivs_compared": 0, "basis_points": 0, "periodic_ends": 0}, 0
     pts = splgen.eval_points(rng, breaks, basis.greville, nrand=8)
     if len(pts) > 70:
-        keep = [q for q in pts if q[0] in ("end", "ulp-inside")]
-        rest = [q for q in pts if q[0] not in ("end", "ulp-inside")]
+        keep = [q for q in pts if q[0] in ("end", "ulp-inside", "near-knot")]
+        rest = [q for q in pts if q[0] not in ("end", "ulp-inside", "near-knot")]
         rng.shuffle(rest)
         pts = keep + rest[:64]
     xs = np.array([x for _k, x in pts])
@@ -150,7 +150,7 @@ def _case_1d(case, spl):
                     e1 = abs(got[i] - ref[i])
                     if not (e1 <= tol):
                         # degree-1 derivative at a knot: either one-sided value is acceptable
-                        if der == 1 and p == 1 and kind in ("knot", "greville", "ulp-off-knot"):
+                        if der == 1 and p == 1 and kind in ("knot", "greville", "ulp-off-knot", "near-knot"):
                             alt = [rm.spline_eval(T, c, p, float(np.nextafter(x, breaks[0])), 1), rm.spline_eval(T, c, p, float(np.nextafter(x, breaks[-1])), 1)]
                             if min(abs(got[i] - a) for a in alt) <= tol:
                                 continue
